@@ -54,6 +54,14 @@ def setup(ctx):
     declined = common.read_fixture("single/declined.h")
     for be in ("-c", "-python-native"):
         jobs.append(("declined%s.in" % be, common.igate_job("declined", {"declined.h": declined}, ["declined.h"], be, channels=("oc", "od"))))
+    # the project's own headers, everything exported: large real databases
+    own_incs = [os.path.join(build.REPO, "src", x) for x in ("interrogatedb", "dtoolutil", "dtoolbase", "cppparser", "interrogate")]
+    for d, fn, be in (("interrogatedb", "interrogateType.h", "-python-native"), ("cppparser", "cppScope.h", "-c"), ("dtoolutil", "filename.h", "-python-native")):
+        path = os.path.join(build.REPO, "src", d, fn)
+        if os.path.exists(path):
+            with open(path, "rb") as f:
+                data = f.read().decode("latin-1")
+            jobs.append(("own-%s%s.in" % (fn[:-2], be), common.igate_job("own" + fn[:-2].lower(), {fn: data}, [fn], be, channels=("oc", "od"), opts=["-promiscuous"], incs=own_incs)))
     _gen_real_universes(ctx, env)
     for name, job in jobs:
         root = runner.fresh_dir("dbreal")
